@@ -29,13 +29,16 @@ PROPS = ['FlushInvisible', 'MergeInvisible', 'MergeDropsExactly', 'QueriesUnchan
          'WriteOnlyAdds', 'QueryReadsOnly']
 
 
-def cfg(keys, writes, batch, parts=4, drop=True, menu=False, inv=True, view=True, combined=False, sizes='{0, 1, 2}'):
+def cfg(keys, writes, batch, parts=4, drop=True, menu=False, inv=True, view=True, combined=False, sizes='{0, 1, 2}', scan=False, bounded=True):
     s = 'SPECIFICATION Spec\nCONSTANTS\n'
     s += '  Keys = {%s}\n  Series = {1, 2}\n' % ', '.join(str(i) for i in range(1, keys + 1))
     s += '  MaxWrites = %d\n  MaxBatch = %d\n  MaxParts = %d\n' % (writes, batch, parts)
     s += '  AllowDrop = %s\n  BatchSizes = %s\n  FullMenu = %s\n' % ('TRUE' if drop else 'FALSE', sizes, 'TRUE' if menu else 'FALSE')
-    if inv:
-        s += 'INVARIANTS\n' + ''.join('  %s\n' % i for i in INVARIANTS + (['QueryDesign'] if combined else QUERY_INV))
+    s += '  BlockCap = 2\n  ScanBatch = 2\n  Bounded = %s\n' % ('TRUE' if bounded else 'FALSE')
+    if inv and not bounded:       # the scan without bounds: only the scan invariant (expected to fail)
+        s += 'INVARIANTS\n  ScanEmitsInOrder\n'
+    elif inv:
+        s += 'INVARIANTS\n' + ''.join('  %s\n' % i for i in INVARIANTS + (['QueryDesign'] if combined else QUERY_INV) + (['ScanEmitsInOrder'] if scan else []))
         s += 'PROPERTIES\n' + ''.join('  %s\n' % i for i in PROPS)
     if view:
         s += 'VIEW View\n'
@@ -72,6 +75,19 @@ def relabel(states):
             raise ValueError('unrecognised transition %r -> %r' % (prev['parts'], cur['parts']))
         out.append(dict(cur, last=last))
     return out
+
+
+def trace_states(out):
+    """states of a TLC counterexample (tlc.parse_trace cannot read action headers that contain '>>')"""
+    import re
+    from vf import tla
+    sts = []
+    for m in re.finditer(r'^State \d+: <.*\n((?:.+\n)+)', out, flags=re.M):
+        try:
+            sts.append(tla.parse_state(m.group(1)))
+        except tla.ParseError:
+            return []
+    return sts
 
 
 def with_variant(states, v):
@@ -128,9 +144,9 @@ def _harness(c, binp, behs, name, hcfg, procs=12, timeout=1500):
     return c.run_harness_parallel(binp, ['-cfg', json.dumps(hc)], behs, name=name, procs=procs, timeout=timeout, env=HENV)
 
 
-THOROUGH_MC = [(dict(keys=3, writes=2, batch=2, drop=True, combined=False), 2),
+THOROUGH_MC = [(dict(keys=3, writes=2, batch=2, drop=True, combined=False, scan=True), 3),
                (dict(keys=2, writes=3, batch=2, drop=False, combined=True), 4),
-               (dict(keys=3, writes=3, batch=1, drop=True, combined=True), 3),
+               (dict(keys=3, writes=3, batch=1, drop=True, combined=True, scan=True), 3),
                (dict(keys=3, writes=2, batch=3, drop=False, combined=True), 3),
                (dict(keys=2, writes=4, batch=1, drop=False, combined=True), 2)]
 
@@ -146,9 +162,9 @@ def replay(c, obj, binp=None):
     return res
 
 
-def run(c):
+def run(c, binp=None):
     """the whole pipeline; the index directories of the harness live on tmpfs when there is one (fsync-heavy)"""
-    binp = c.gobuild('sidx')
+    binp = binp or c.gobuild('sidx')
     shm = '/dev/shm' if os.path.isdir('/dev/shm') and os.access('/dev/shm', os.W_OK) else None
     root = tempfile.mkdtemp(prefix='verif-sidx-', dir=shm)
     HENV['TMPDIR'] = root
@@ -172,13 +188,13 @@ def _run(c, binp):
     # ---- 1. TLC: exhaustive design check, replay graphs and random deep behaviours, all concurrently ------
     # exhaustive: (keys, writes, entries per write, drop-merges, query invariants evaluated together), TLC workers
     if quick:
-        mcs = [(dict(keys=3, writes=2, batch=2, drop=True, combined=True), 6),
+        mcs = [(dict(keys=3, writes=2, batch=2, drop=True, combined=True, scan=True), 6),
                (dict(keys=2, writes=3, batch=1, drop=True, combined=True), 3)]
         gcs = [(dict(keys=2, writes=2, batch=2), 2)]
         nsim, simjobs = 150, 3
     else:
         mcs = THOROUGH_MC
-        gcs = [(dict(keys=3, writes=2, batch=2), 2), (dict(keys=2, writes=3, batch=1), 2), (dict(keys=2, writes=2, batch=3), 1)]
+        gcs = [(dict(keys=3, writes=2, batch=2), 2), (dict(keys=2, writes=3, batch=1), 2)]
         nsim, simjobs = 1200, 4
     skeys = 4
 
@@ -188,18 +204,21 @@ def _run(c, binp):
         if kind == 'mc':
             return tlc.run('Sidx.tla', 'mc.cfg', tag='sidx-mc%d' % n, files={'mc.cfg': cfg(**k)}, coverage=(not quick and k is mcs[0][0]),
                            timeout=300 if quick else 2400, workers=wk)
+        if kind == 'cex':      # the scan WITHOUT bounds between scan batches: TLC must find an out-of-order answer
+            return tlc.run('Sidx.tla', 'x.cfg', tag='sidx-x%d' % n, files={'x.cfg': cfg(bounded=False, **k)}, timeout=600, workers=wk)
         if kind == 'graph':
             return tlc.run('Sidx.tla', 'g.cfg', tag='sidx-g%d' % n, files={'g.cfg': cfg(inv=False, **k)}, dump=True, timeout=900, workers=wk)
         return tlc.run('Sidx.tla', 's.cfg', tag='sidx-s%d' % n, files={'s.cfg': cfg(skeys, 6, 3, parts=4, menu=True, inv=False, view=False, sizes='{0, 1, 2, 3}')},
                        simulate={'num': nsim // simjobs}, depth=24, seed=c.seed * 100 + k, timeout=900)
     jobs = [('mc', k, wk) for k, wk in mcs] + [('graph', k, wk) for k, wk in gcs] + [('sim', i, 1) for i in range(simjobs)]
+    jobs.append(('cex', dict(keys=3, writes=2, batch=2, drop=False), 2))
     with ThreadPoolExecutor(max_workers=len(jobs)) as ex:
         results = list(ex.map(job, jobs))
     phase('tlc_cpu_s')
     states = transitions = 0
     tlc_runs = []
     coverage = {}
-    graph_behs, graph_edges, uncovered, gkeys, sim_behs = [], 0, 0, [], []
+    graph_behs, graph_edges, uncovered, gkeys, sim_behs, cex = [], 0, 0, [], [], None
     for (kind, k, wk), r in zip(jobs, results):
         if kind == 'mc':
             if r.violated or r.error or r.timed_out:
@@ -210,6 +229,16 @@ def _run(c, binp):
             coverage.update(r.coverage or {})
             c.log('TLC Sidx %s: %d distinct states, %d transitions, all invariants and action properties hold (%.1fs)' % (
                 json.dumps(k), r.distinct, r.generated, r.wall))
+        elif kind == 'cex':
+            # vacuity guard for ScanEmitsInOrder, and a schedule worth executing on the real code
+            if r.violated != 'ScanEmitsInOrder':
+                c.inconclusive('Sidx.tla with Bounded=FALSE: TLC found no out-of-order answer (violated=%s error=%s): the scan model is vacuous\n%s' % (
+                    r.violated, r.error, r.output[-800:]))
+            cex = trace_states(r.output)
+            if len(cex) < 2:
+                c.inconclusive('cannot read the TLC counterexample of the unbounded scan')
+            cex = relabel(cex)
+            c.log('TLC, scan without bounds between scan batches (Bounded=FALSE): ScanEmitsInOrder violated after %s; replayed on the real code below' % json.dumps(ops_of(cex)))
         elif kind == 'graph':
             if not r.ok:
                 c.inconclusive('graph dump failed (%s): %s' % (k, r.error or r.violated))
@@ -242,6 +271,8 @@ def _run(c, binp):
     for b in sim_behs:
         groups.setdefault((skeys, 'full'), []).append(len(allb))
         allb.append(with_variant(b, len(allb)))
+    groups.setdefault((3, 'full'), []).append(len(allb))        # the spec-level counterexample of the unbounded scan
+    allb.append(with_variant(cex, len(allb)))
 
     violations, stats, total_b, total_s, incon, hcfg_of = [], {}, 0, 0, [], {}
 
@@ -300,7 +331,7 @@ def _run(c, binp):
         again = c.run_harness_parallel(binp, ['-cfg', json.dumps(hc)], [b], name='repro', procs=1, env=HENV)
         if not [x for x in again['violations'] if x['signature'] == v['signature']]:
             c.inconclusive('violation %s not reproduced on a second run: %s' % (v['signature'], v['detail'][:500]))
-        c.report(v['signature'], v['detail'], {'behaviour': b, 'harness': 'sidx', 'harness_cfg': hc, 'ops': ops_of(b)})
+        c.report(v['signature'], v['detail'], {'behaviour': b, 'harness': 'sidx', 'harness_cfg': hc, 'ops': ops_of(b), 'reported_as': v['signature']})
 
     # ---- 5. binding self-test: a corrupted expectation must be rejected --------------------------------------
     selftest = None
@@ -340,7 +371,7 @@ def _run(c, binp):
         simulated=len(sim_behs), fat_behaviours=fat_n, samples=samples, nontrivial=nontriv, harness_stats=stats,
         queries=stats.get('queries', 0), spec_queries=stats.get('spec_queries', 0),
         selftest_rejected=bool(selftest or selftest_q) and selftest is not False and selftest_q is not False,
-        tlc_runs=tlc_runs, action_coverage=coverage, cpu_seconds=phases, violations=len(violations),
+        tlc_runs=tlc_runs, action_coverage=coverage, cpu_seconds=phases, spec_counterexample_unbounded_scan=ops_of(cex), violations=len(violations),
         rule='behaviours = an edge cover of the TLC state graphs of Sidx.tla under VIEW (%s) + %d -simulate behaviours (keys 1..4, <=6 writes x <=3 '
              'entries, <=4 parts, depth 24); after every step the parts (ids, mem/file, entries) are compared and queries run through '
              'StreamingQuery and QuerySync; non-trivial = contains a flush or merge and a state with >=2 parts or a duplicate sort key; '
@@ -353,14 +384,17 @@ def _run(c, binp):
 
 
 if __name__ == '__main__':
-    c = core.Check('C09', 'model_checking')
+    # builder's stand-alone entry: SIDX_PID = evidence/replay id, SIDX_BIN = a prebuilt harness binary (e.g. one
+    # built from a patched copy of the repository)
+    c = core.Check(os.environ.get('SIDX_PID', 'C09'), 'model_checking')
     c.setup()
+    prebuilt = os.environ.get('SIDX_BIN')
     if c.replay:
         obj = json.load(open(c.replay))
-        replay(c, obj)
+        replay(c, obj, prebuilt)
         c.cov.update(states=1, transitions=1, traces_validated_against_impl=0, samples=[obj.get('ops', [])])
         c.finish()
-    r = run(c)
+    r = run(c, prebuilt)
     c.cov.update(states=r['states'], transitions=r['transitions'], traces_validated_against_impl=0, behaviours_replayed=r['behaviours'],
                  steps_replayed=r['steps'], graph_edges=r['graph_edges'], graph_edges_uncovered=r['uncovered'], exhaustive=(r['uncovered'] == 0),
                  evaluations=r['behaviours'], distinct_nontrivial=r['nontrivial'], rule=r['rule'], harness_stats=r['harness_stats'],
